@@ -713,6 +713,64 @@ pub fn from_utf8_trusting(v: &[u8]) -> Result<&str, std::str::Utf8Error> {
     Ok(unsafe { std::str::from_utf8_unchecked(v) })
 }
 
+/// C05 / C18 (slot state machine, one step from every state): `OutstandingRequest::take`
+/// leaves a pending slot pending and reports "nothing yet", hands out the parked reply of a
+/// ready slot exactly once (the slot becomes complete and the reply is the parked one, with its
+/// own message-id), and refuses a completed slot.
+#[kani::proof]
+#[kani::unwind(8)]
+fn c05_slot_take_step() {
+    let code: u8 = kani::any();
+    kani::assume(code >= 1 && code <= 3);
+    let id: usize = kani::any();
+    kani::assume(id == 1 || id == 2);
+    let mut slot = match entry_for(code, 1, 2) {
+        Some((_, s)) => s,
+        None => unreachable!(),
+    };
+    if code == 2 && id == 2 {
+        slot = OutstandingRequest::Ready(vr::partial_reply(2, 3));
+    }
+    let r = slot.take();
+    match code {
+        1 => {
+            assert!(matches!(r, Ok(None)), "C05: take() on a pending slot must report that nothing is ready");
+            assert!(matches!(slot, OutstandingRequest::Pending), "C05/C18: take() on a pending slot must leave it pending (a waiter that polls and is then dropped must not complete the request)");
+        }
+        2 => {
+            match &r {
+                Ok(Some(p)) => assert!(vr::partial_reply_id(p) == id, "C05: take() handed out a reply other than the parked one"),
+                _ => assert!(false, "C05: take() on a ready slot must hand out the parked reply"),
+            }
+            assert!(matches!(slot, OutstandingRequest::Complete), "C05: a reply can be taken more than once");
+        }
+        _ => {
+            assert!(matches!(r, Err(Error::RequestComplete)), "C05: take() on a completed slot must fail");
+            assert!(matches!(slot, OutstandingRequest::Complete), "C05: a completed slot changed state");
+        }
+    }
+    kani::cover!(code == 2 && id == 2, "ready slot holding reply 2");
+    std::mem::forget(r);
+    std::mem::forget(slot);
+}
+
+/// C05 (fresh message-ids): `MessageId::increment` returns a value different from every value
+/// returned before - for every counter value below usize::MAX - 2 (a session that has sent
+/// 2^64 requests is outside the claim), three consecutive calls.
+#[kani::proof]
+fn c05_message_id_is_fresh() {
+    let n: usize = kani::any();
+    kani::assume(n < usize::MAX - 2);
+    let mut last = vr::message_id(n);
+    let a = last.increment();
+    let b = last.increment();
+    let c = last.increment();
+    let (a, b, c) = (vr::message_id_value(a), vr::message_id_value(b), vr::message_id_value(c));
+    assert!(a > n && b > a && c > b, "C05: message-ids are not strictly increasing");
+    assert!(vr::message_id_value(last) == c, "C05: the counter is not the id handed out last");
+    kani::cover!(n > 1_000_000, "a large counter value");
+}
+
 /// C05 (inductive step): the waiter for message-id 1 runs from an arbitrary valid map state
 /// (its own entry and the entry of request 2 each absent / Pending / Ready / Complete) against a
 /// transport that delivers up to two further replies bearing ids from {1, 2, 9}.
@@ -973,7 +1031,7 @@ fn c05_recv_after_lock_handover() {
 /// reader's input, without walking the events.
 pub fn stub_partial_read_xml(reader: &mut quick_xml::NsReader<&[u8]>, _start: &quick_xml::events::BytesStart<'_>) -> Result<rpc::PartialReply, ReadError> {
     let input: &[u8] = reader.get_ref();
-    let slot = if input.is_empty() { 0 } else { input[0] };
+    let slot = tape::slot_of_input(input).unwrap_or(0);
     let t = tape::registered(slot);
     let id = match t.attrs[0].val {
         1 => 1,
@@ -987,7 +1045,7 @@ pub fn stub_partial_read_xml(reader: &mut quick_xml::NsReader<&[u8]>, _start: &q
 /// ("d1" / "d2" / "d9" by the tape's message-id).
 pub fn stub_opaque_by_tape(reader: &mut quick_xml::NsReader<&[u8]>, start: &quick_xml::events::BytesStart<'_>) -> Result<Opaque, ReadError> {
     let input: &[u8] = reader.get_ref();
-    let slot = if input.is_empty() { 0 } else { input[0] };
+    let slot = tape::slot_of_input(input).unwrap_or(0);
     let t = tape::registered(slot);
     let _ = reader.read_to_end(start.to_end().name())?;
     Ok(Opaque::from(match t.attrs[0].val {
@@ -995,4 +1053,141 @@ pub fn stub_opaque_by_tape(reader: &mut quick_xml::NsReader<&[u8]>, start: &quic
         2 => "d2",
         _ => "d9",
     }))
+}
+
+// =================================================================================================
+// C10: text-valued parameters reach the message as escaped text / attribute values.
+
+use quick_xml::writer::{self as wlog, WKind};
+
+fn any_text2() -> String {
+    let mut s = String::with_capacity(2);
+    let mut i = 0;
+    while i < 2 {
+        let c: u8 = kani::any();
+        s.push(match c % 5 {
+            0 => '<',
+            1 => '&',
+            2 => '"',
+            3 => ']',
+            _ => 'a',
+        });
+        i += 1;
+    }
+    s
+}
+
+fn concrete_junos_ctx() -> Context {
+    let server = crate::capabilities::verif_caps::capabilities_from_slots([
+        Some(Capability::Base(Base::V1_0)),
+        Some(Capability::Candidate),
+        Some(Capability::ConfirmedCommitV1_1),
+        Some(Capability::XPath),
+        Some(Capability::JunosXmlManagementProtocol),
+        None, None, None, None, None, None, None, None, None,
+    ]);
+    let client = crate::capabilities::verif_caps::capabilities_from_slots([
+        Some(Capability::Base(Base::V1_0)),
+        None, None, None, None, None, None, None, None, None, None, None, None, None,
+    ]);
+    Context::new(SessionId::new(7).unwrap(), Base::V1_0, client, server)
+}
+
+/// the log shows `value` exactly once as an escaped text node (`attr` = false) or escaped
+/// attribute value (`attr` = true), and no raw access to the sink
+fn carried_escaped(value: &str, attr: bool) -> (bool, bool) {
+    let log = wlog::log();
+    let mut raw = false;
+    let mut count = 0;
+    let mut i = 0;
+    while i < wlog::WLOG_CAP {
+        if i < log.n {
+            let e = &log.entries[i];
+            match e.kind {
+                WKind::RawAccess => raw = true,
+                WKind::Text if !attr => {
+                    if e.escaped && e.text_len == value.len() && e.text.as_slice() == value.as_bytes() {
+                        count += 1;
+                    }
+                }
+                WKind::Attr if attr => {
+                    if e.escaped && e.text_len == value.len() && e.text.as_slice() == value.as_bytes() {
+                        count += 1;
+                    }
+                }
+                _ => {}
+            }
+        }
+        i += 1;
+    }
+    (count == 1 && !log.overflow, raw)
+}
+
+/// C10: `<commit>` persist / persist-id tokens and `<cancel-commit>` persist-id.
+#[kani::proof]
+#[kani::unwind(50)]
+fn c10_commit_tokens() {
+    let ctx = concrete_junos_ctx();
+    let tok = any_text2();
+    let which: u8 = kani::any();
+    kani::assume(which < 3);
+    wlog::reset_log();
+    let mut w = quick_xml::Writer::new(Vec::new());
+    let ok = match which {
+        0 => match new_decomposed::<Commit, _>(&ctx, |b| b.confirmed(true)?.persist(Some(Token::new(&tok)))?.finish()) {
+            Ok(op) => op.write_xml(&mut w).is_ok(),
+            Err(()) => false,
+        },
+        1 => match new_decomposed::<Commit, _>(&ctx, |b| b.persist_id(Some(Token::new(&tok)))?.finish()) {
+            Ok(op) => op.write_xml(&mut w).is_ok(),
+            Err(()) => false,
+        },
+        _ => match new_decomposed::<CancelCommit, _>(&ctx, |b| b.persist_id(Some(Token::new(&tok)))?.finish()) {
+            Ok(op) => op.write_xml(&mut w).is_ok(),
+            Err(()) => false,
+        },
+    };
+    assert!(ok, "C10: request with a token could not be built / written");
+    let (carried, raw) = carried_escaped(&tok, false);
+    assert!(!raw, "C10 commit: token written through the raw path");
+    assert!(carried, "C10 commit: token does not reach the message as escaped text with its exact value");
+    kani::cover!(which == 0, "persist");
+    kani::cover!(which == 2, "cancel-commit persist-id");
+    std::mem::forget((w, tok, ctx));
+}
+
+/// C10: Junos `<open-configuration>` instance name, `<commit-configuration>` log message and
+/// the XPath `select` attribute of a `<get-config>` filter.
+#[cfg(feature = "junos")]
+#[kani::proof]
+#[kani::unwind(50)]
+fn c10_junos_texts_and_xpath() {
+    use crate::message::rpc::operation::junos::{CommitConfiguration, OpenConfiguration};
+    let ctx = concrete_junos_ctx();
+    let txt = any_text2();
+    let which: u8 = kani::any();
+    kani::assume(which < 3);
+    wlog::reset_log();
+    let mut w = quick_xml::Writer::new(Vec::new());
+    let ok = match which {
+        0 => match new_decomposed::<OpenConfiguration, _>(&ctx, |b| b.ephemeral(Some(&txt)).finish()) {
+            Ok(op) => op.write_xml(&mut w).is_ok(),
+            Err(()) => false,
+        },
+        1 => match new_decomposed::<CommitConfiguration, _>(&ctx, |b| b.with_log_message(&txt).finish()) {
+            Ok(op) => op.write_xml(&mut w).is_ok(),
+            Err(()) => false,
+        },
+        _ => match new_decomposed::<GetConfig<Opaque>, _>(&ctx, |b| b.source(Datastore::Running)?.filter(Some(Filter::XPath(txt.clone())))?.finish()) {
+            Ok(op) => op.write_xml(&mut w).is_ok(),
+            Err(()) => false,
+        },
+    };
+    assert!(ok, "C10: request could not be built / written");
+    let (carried, raw) = carried_escaped(&txt, which == 2);
+    assert!(!raw, "C10: text-valued parameter written through the raw path");
+    assert!(carried, "C10: text-valued parameter does not reach the message escaped with its exact value");
+    kani::cover!(which == 1, "log message");
+    kani::cover!(which == 2, "xpath select attribute");
+    std::mem::forget((w, txt, ctx));
 }
